@@ -26,7 +26,10 @@ def main():
     i = sys.argv[2]
     props = None
     tier = 'quick'
+    offset = 0
     for k, a in enumerate(sys.argv):
+        if a == '--offset':
+            offset = int(sys.argv[k + 1])
         if a == '--props':
             props = sys.argv[k + 1].split(',')
         if a == '--tier':
@@ -73,7 +76,8 @@ def main():
     finally:
         sh('git checkout -q -- .', cwd=wt)
         sh('git clean -fdq wpull', cwd=wt)
-    out_dir = os.path.join(VERIF, 'seeded', '%s-%s' % (pid, i))
+    sid = str(int(i) + offset)
+    out_dir = os.path.join(VERIF, 'seeded', '%s-%s' % (pid, sid))
     os.makedirs(out_dir, exist_ok=True)
     shutil.copy(os.path.join(d, 'patch.diff'), out_dir)
     shutil.copy(os.path.join(d, 'demo.py'), out_dir)
@@ -81,7 +85,7 @@ def main():
                            'baseline pytest (111 passed), then `WPULL_REPO=<worktree> ./check <id> %s` for %s; worktree restored' % (tier, props))
     json.dump(res, open(os.path.join(out_dir, 'meta.json'), 'w'), indent=1)
     c = res['confirmed']
-    print(json.dumps({'id': '%s-%s' % (pid, i), 'demo_ok': c.get('demo_without_change') == 'pass' and c.get('demo_with_change') == 'fails',
+    print(json.dumps({'id': '%s-%s' % (pid, sid), 'demo_ok': c.get('demo_without_change') == 'pass' and c.get('demo_with_change') == 'fails',
                       'tests': c.get('baseline_tests_with_change', '')[:40],
                       'caught': {p: (c2['caught'], [r.get('kind') or r.get('type') for r in c2['replays']][:3]) for p, c2 in res['checks'].items()}}))
     return 0
